@@ -39,6 +39,27 @@ def St.put (s : St) (n : Node) : Res (St × Nat) :=
   | .error e => .error (e, s)
   | .ok (t, i) => .ok ({ s with storage := t }, i)
 
+/-- `St.put` written so that the manager is taken apart before the table is updated: no second
+reference to the arrays is alive while `putE` runs, so they are updated in place.  The compiler uses
+this version (`@[csimp]`); every theorem is about `St.put`. -/
+def St.putFast (s : St) (n : Node) : Res (St × Nat) :=
+  match s with
+  | ⟨storage, cache, sizeCache⟩ =>
+    match storage.putE n with
+    | (t, .error e) => .error (e, ⟨t, cache, sizeCache⟩)
+    | (t, .ok i) => .ok (⟨t, cache, sizeCache⟩, i)
+
+@[csimp] theorem St.put_eq_putFast : @St.put = @St.putFast := by
+  funext s n
+  cases s with
+  | mk storage cache sizeCache =>
+    unfold St.put St.putFast
+    simp only [Table.putE_eq]
+    unfold Table.handBack
+    cases storage.put n with
+    | error e => rfl
+    | ok p => rfl
+
 def St.cacheGet (s : St) (k : OpKey) : St × Option Ref :=
   ({ s with cache := (s.cache.get k).1 }, (s.cache.get k).2)
 
